@@ -7,8 +7,9 @@ import (
 	"fmt"
 	"io"
 	"log"
-	"net/http"
 	"net/url"
+	"os"
+	"path/filepath"
 	"strings"
 	"sync"
 
@@ -53,6 +54,16 @@ type serveIn struct {
 	Hdr     [][2]string  `json:"hdr"`
 	WS      bool         `json:"ws"`
 	Cred    []string     `json:"cred"` // user, password of an Authorization: Basic header; empty = none
+	// the Authorization line the credentials make (base64 is not modelled: the value travels with the case and Run
+	// checks that it is the encoding of Cred)
+	Authz string `json:"authz"`
+}
+
+func authzOf(cred []string) string {
+	if len(cred) != 2 {
+		return ""
+	}
+	return "Basic " + base64.StdEncoding.EncodeToString([]byte(cred[0]+":"+cred[1]))
 }
 
 type serveOut struct {
@@ -64,15 +75,52 @@ type serveOut struct {
 	Fwd      map[string]string `json:"fwd"` // first value of the forwarding headers at the upstream
 }
 
-type stubBasic map[string]string
+// realBasic builds the scheme auth.LoadAuthSchemes gives for `proxy.auth = name=basic;type=basic;file=…` — the real
+// auth/basic.go on an htpasswd file holding the secrets in plain form (go-htpasswd's last parser accepts them) — so
+// that what the gate does to the request on its way to the upstream is the code's, not a stand-in's. One scheme per
+// set of secrets and harness process; the files live in a directory of their own that the process creates.
+var (
+	basicMu    sync.Mutex
+	basicDir   string
+	basicCache = map[string]map[string]auth.AuthScheme{}
+)
 
-func (s stubBasic) Authorized(r *http.Request, w http.ResponseWriter) bool {
-	u, p, ok := r.BasicAuth()
-	if !ok {
-		return false
+func realBasic(secrets [][2]string) (map[string]auth.AuthScheme, error) {
+	var file strings.Builder
+	seen := map[string]bool{}
+	for _, s := range secrets {
+		u, p := s[0], s[1]
+		if u == "" || p == "" || strings.ContainsAny(u, ":\r\n#") || strings.ContainsAny(p, ":\r\n") || !validValue(u) || !validValue(p) ||
+			strings.HasPrefix(p, "$") || strings.HasPrefix(p, "{") || seen[u] {
+			return nil, errors.New("secret cannot be written as a plain htpasswd line")
+		}
+		seen[u] = true
+		file.WriteString(u + ":" + p + "\n")
 	}
-	want, ok := s[u]
-	return ok && want == p
+	basicMu.Lock()
+	defer basicMu.Unlock()
+	if sch, ok := basicCache[file.String()]; ok {
+		return sch, nil
+	}
+	if basicDir == "" {
+		d, err := os.MkdirTemp("", "fvh-c07-htpasswd-")
+		if err != nil {
+			return nil, err
+		}
+		basicDir = d
+	}
+	path := filepath.Join(basicDir, fmt.Sprintf("htpasswd-%d", len(basicCache)))
+	if err := os.WriteFile(path, []byte(file.String()), 0600); err != nil {
+		return nil, err
+	}
+	sch, err := auth.LoadAuthSchemes(map[string]config.AuthScheme{
+		"basic": {Name: "basic", Type: "basic", Basic: config.BasicAuth{Realm: "verif", File: path}}})
+	os.Remove(path) // read once (no refresh interval): nothing is left behind
+	if err != nil {
+		return nil, err
+	}
+	basicCache[file.String()] = sch
+	return sch, nil
 }
 
 var fwdNames = []string{"Forwarded", "X-Forwarded-Host", "X-Forwarded-Port", "X-Forwarded-Prefix", "X-Forwarded-Proto", "X-Real-Ip"}
@@ -126,9 +174,12 @@ func runServe(raw json.RawMessage) (interface{}, error) {
 		if strings.Contains(in.Cred[0], ":") || !validValue(in.Cred[0]) || !validValue(in.Cred[1]) {
 			return nil, errors.New("credentials cannot be sent")
 		}
-		u.Hdr = append(append([][2]string{}, in.Hdr...), [2]string{"Authorization", "Basic " + base64.StdEncoding.EncodeToString([]byte(in.Cred[0]+":"+in.Cred[1]))})
+		u.Hdr = append(append([][2]string{}, in.Hdr...), [2]string{"Authorization", authzOf(in.Cred)})
 	} else if len(in.Cred) != 0 {
 		return nil, errors.New("cred is user, password")
+	}
+	if in.Authz != authzOf(in.Cred) {
+		return nil, errors.New("authz is not the encoding of cred")
 	}
 	for _, h := range in.Hdr {
 		if strings.EqualFold(h[0], "authorization") {
@@ -143,9 +194,9 @@ func runServe(raw json.RawMessage) (interface{}, error) {
 	if err != nil || len(page) > 1024 {
 		return nil, errors.New("page")
 	}
-	secrets := stubBasic{}
-	for _, s := range in.Secrets {
-		secrets[s[0]] = s[1]
+	schemes, err := realBasic(in.Secrets)
+	if err != nil {
+		return nil, err
 	}
 	serveMu.Lock()
 	defer serveMu.Unlock()
@@ -155,7 +206,7 @@ func runServe(raw json.RawMessage) (interface{}, error) {
 	noroute.SetHTML(string(page))
 	defer noroute.SetHTML("")
 	resp, hits, up, _, err := e.exchange(config.Proxy{NoRouteStatus: in.NoRoute}, pcfg{}, strings.Join(cmds, "\n"), nil,
-		map[string]auth.AuthScheme{"basic": secrets}, in.Method, req, true)
+		schemes, in.Method, req, true)
 	if err != nil {
 		return nil, err
 	}
@@ -242,6 +293,12 @@ func genServe(r *hx.Rand, i int) interface{} {
 	if r.Chance(1, 2) {
 		in.Cred = [][]string{{"u", "p"}, {"u", "wrong"}, {"v", "q"}, {"w", "p"}}[r.Intn(4)]
 	}
+	in.Authz = authzOf(in.Cred)
+	// end-to-end headers of the client's own: they must arrive whatever gates the route carries
+	for k := r.Intn(3); k > 0; k-- {
+		in.Hdr = append(in.Hdr, [2]string{r.Pick([]string{"X-A", "Cookie", "Accept", "User-Agent", "x-a", "Accept-Encoding", "Proxy-Authorization", "Connection", "Www-Authenticate", "X-Auth-Token"}),
+			r.Pick([]string{"1", "a=b", "", "x-a", "text/html", "close, X-A", "Basic dTpw"})})
+	}
 	if r.Chance(1, 8) {
 		in.WS, in.Method = true, "GET"
 	}
@@ -261,7 +318,7 @@ func init() {
 	base := func(rs ...serveRoute) serveIn {
 		return serveIn{Routes: rs, NoRoute: 404, HTML: "<html>no route</html>", Secrets: [][2]string{{"u", "p"}}, Method: "GET", Host: "a.example", Path: "/", Hdr: [][2]string{}, Cred: []string{}}
 	}
-	with := func(in serveIn, f func(*serveIn)) serveIn { f(&in); return in }
+	with := func(in serveIn, f func(*serveIn)) serveIn { f(&in); in.Authz = authzOf(in.Cred); return in }
 	up := "http://UPSTREAM/"
 	hx.Register(&hx.Stream{
 		Name: "c07.serve",
